@@ -17,33 +17,9 @@ import (
 	"mossverif/run"
 )
 
-const pageSize = 4096
-
-// crashImage is the recipe of one post-crash disk image.
-type crashImage struct {
-	Point   int    // ops[0..Point] have been issued
-	Torn    int    // >=0: the write at Point is torn at this byte (only bytes [0,Torn) of it may be applied)
-	Kind    string // all | none | subset | torn | cut | zero-extend
-	Subset  uint64 // seed of the block subset (Kind == subset)
-	CutFile string // Kind == cut: file whose length is cut
-	CutLen  int64
-}
-
 type c05Replay struct {
 	Program *eng.Program
-	Image   crashImage
-}
-
-type pendWrite struct {
-	off  int64
-	data []byte
-	seq  int
-}
-
-type fstate struct {
-	exists  bool
-	durable []byte
-	pending []pendWrite
+	Image   eng.CrashImage
 }
 
 // roundMark is a completed persistence round in the trace.
@@ -52,144 +28,8 @@ type roundMark struct {
 	K  int // prefix exposed by the store after the round
 }
 
-// buildImage materialises the image described by img from the trace.
-// It returns the files of the image (name -> content).
-func buildImage(trace []eng.FOp, img crashImage, killOnly bool) map[string][]byte {
-	files := map[string]*fstate{}
-	get := func(n string) *fstate {
-		f := files[n]
-		if f == nil {
-			f = &fstate{}
-			files[n] = f
-		}
-		return f
-	}
-	for i := 0; i <= img.Point && i < len(trace); i++ {
-		op := trace[i]
-		switch op.Kind {
-		case "create":
-			if op.Err == "" {
-				f := get(op.Name)
-				f.exists = true
-				f.durable = nil
-				f.pending = nil
-			}
-		case "write":
-			if op.N > 0 {
-				d := op.Data
-				if i == img.Point && img.Torn >= 0 && img.Torn < len(d) {
-					d = d[:img.Torn]
-				}
-				if len(d) > 0 {
-					f := get(op.Name)
-					f.pending = append(f.pending, pendWrite{off: op.Off, data: d, seq: i})
-				} else if i == img.Point && img.Torn == 0 {
-					// nothing of the write reached the file
-				}
-			}
-		case "sync":
-			if op.Err == "" {
-				f := get(op.Name)
-				for _, w := range f.pending {
-					f.durable = applyAt(f.durable, w.off, w.data)
-				}
-				f.pending = nil
-			}
-		case "truncate":
-			if op.Err == "" {
-				f := get(op.Name)
-				for _, w := range f.pending {
-					f.durable = applyAt(f.durable, w.off, w.data)
-				}
-				f.pending = nil
-				if int64(len(f.durable)) > op.Off {
-					f.durable = f.durable[:op.Off]
-				}
-			}
-		case "unlink":
-			delete(files, op.Name)
-		}
-	}
-	out := map[string][]byte{}
-	rng := eng.NewRng(img.Subset)
-	for name, f := range files {
-		if !f.exists && f.durable == nil && len(f.pending) == 0 {
-			continue
-		}
-		content := append([]byte{}, f.durable...)
-		extent := int64(len(content))
-		for _, w := range f.pending {
-			if e := w.off + int64(len(w.data)); e > extent {
-				extent = e
-			}
-		}
-		natural := int64(len(content))
-		apply := func(w pendWrite, lo, hi int64) {
-			// apply bytes [lo,hi) of the file range covered by w
-			if lo < w.off {
-				lo = w.off
-			}
-			if hi > w.off+int64(len(w.data)) {
-				hi = w.off + int64(len(w.data))
-			}
-			if lo >= hi {
-				return
-			}
-			content = applyAt(content, lo, w.data[lo-w.off:hi-w.off])
-			if hi > natural {
-				natural = hi
-			}
-		}
-		switch {
-		case killOnly || img.Kind == "all" || img.Kind == "torn" || img.Kind == "cut":
-			for _, w := range f.pending {
-				apply(w, w.off, w.off+int64(len(w.data)))
-			}
-		case img.Kind == "none":
-			// only durable content; creation is durable, so the file exists
-		case img.Kind == "zero-extend":
-			// length reached the full extent but no data block did
-			if extent > int64(len(content)) {
-				content = append(content, make([]byte, extent-int64(len(content)))...)
-			}
-		default: // subset of page blocks
-			for _, w := range f.pending {
-				first := w.off / pageSize
-				last := (w.off + int64(len(w.data)) - 1) / pageSize
-				for b := first; b <= last; b++ {
-					if rng.Chance(1, 2) {
-						apply(w, b*pageSize, (b+1)*pageSize)
-					}
-				}
-			}
-			if rng.Chance(1, 3) && extent > int64(len(content)) {
-				// the length update made it to disk although later blocks did not
-				content = append(content, make([]byte, extent-int64(len(content)))...)
-			}
-		}
-		if img.Kind == "cut" && img.CutFile == name {
-			if img.CutLen < int64(len(f.durable)) {
-				// the durable length cannot shrink
-			} else if img.CutLen < int64(len(content)) {
-				content = content[:img.CutLen]
-			}
-		}
-		out[name] = content
-	}
-	return out
-}
-
-func applyAt(buf []byte, off int64, data []byte) []byte {
-	end := off + int64(len(data))
-	if int64(len(buf)) < end {
-		buf = append(buf, make([]byte, end-int64(len(buf)))...)
-	}
-	copy(buf[off:end], data)
-	return buf
-}
-
 // enumerateImages lists the images to try for one trace.
-func enumerateImages(trace []eng.FOp, r *eng.Rng, killOnly bool, perPoint int, maxPoints int) []crashImage {
+func enumerateImages(trace []eng.FOp, r *eng.Rng, killOnly bool, perPoint int, maxPoints int) []eng.CrashImage {
 	var pts []int
 	for i, op := range trace {
 		switch op.Kind {
@@ -206,12 +46,12 @@ func enumerateImages(trace []eng.FOp, r *eng.Rng, killOnly bool, perPoint int, m
 		}
 		pts = np
 	}
-	var out []crashImage
+	var out []eng.CrashImage
 	for _, p := range pts {
 		op := trace[p]
-		out = append(out, crashImage{Point: p, Torn: -1, Kind: "all"})
+		out = append(out, eng.CrashImage{Point: p, Torn: -1, Kind: "all"})
 		if op.Kind == "write" && op.N > 0 {
-			offs := []int{0, 1, 27, 28, 29, op.N / 2, pageSize - 1, pageSize, pageSize + 1, op.N - 1}
+			offs := []int{0, 1, 27, 28, 29, op.N / 2, eng.PageSize - 1, eng.PageSize, eng.PageSize + 1, op.N - 1}
 			seen := map[int]bool{}
 			cnt := 0
 			for _, t := range offs {
@@ -223,20 +63,20 @@ func enumerateImages(trace []eng.FOp, r *eng.Rng, killOnly bool, perPoint int, m
 					continue
 				}
 				cnt++
-				out = append(out, crashImage{Point: p, Torn: t, Kind: "torn"})
+				out = append(out, eng.CrashImage{Point: p, Torn: t, Kind: "torn"})
 			}
 		}
 		if killOnly {
 			continue
 		}
-		out = append(out, crashImage{Point: p, Torn: -1, Kind: "none"})
-		out = append(out, crashImage{Point: p, Torn: -1, Kind: "zero-extend"})
+		out = append(out, eng.CrashImage{Point: p, Torn: -1, Kind: "none"})
+		out = append(out, eng.CrashImage{Point: p, Torn: -1, Kind: "zero-extend"})
 		for j := 0; j < perPoint; j++ {
-			out = append(out, crashImage{Point: p, Torn: -1, Kind: "subset", Subset: r.U64()})
+			out = append(out, eng.CrashImage{Point: p, Torn: -1, Kind: "subset", Subset: r.U64()})
 		}
 		if op.Kind == "write" && op.N > 0 {
 			for _, cl := range []int64{op.Off + 1, op.Off + 28, op.Off + int64(op.N)/2, op.Off + int64(op.N) - 1} {
-				out = append(out, crashImage{Point: p, Torn: -1, Kind: "cut", CutFile: op.Name, CutLen: cl})
+				out = append(out, eng.CrashImage{Point: p, Torn: -1, Kind: "cut", CutFile: op.Name, CutLen: cl})
 			}
 		}
 	}
@@ -269,7 +109,7 @@ func recordTrace(p *eng.Program, scratch string, idx int) (trace []eng.FOp, mark
 	return append([]eng.FOp{}, fs.Trace...), marks, r.E.World, r.E.Uni, ""
 }
 
-func opKindAt(trace []eng.FOp, img crashImage) string {
+func opKindAt(trace []eng.FOp, img eng.CrashImage) string {
 	op := trace[img.Point]
 	k := op.Kind
 	if op.Phase != "" {
@@ -279,7 +119,7 @@ func opKindAt(trace []eng.FOp, img crashImage) string {
 }
 
 // checkImage opens one image and applies the oracle.
-func checkImage(cfg eng.Config, world *model.World, uni *eng.Universe, marks []roundMark, trace []eng.FOp, img crashImage,
+func checkImage(cfg eng.Config, world *model.World, uni *eng.Universe, marks []roundMark, trace []eng.FOp, img eng.CrashImage,
 	files map[string][]byte, dir string, sr *run.ShardResult) (class, disc, detail string) {
 	os.RemoveAll(dir)
 	os.MkdirAll(dir, 0o755)
@@ -535,7 +375,7 @@ func init() {
 				if sr.Bail() {
 					break
 				}
-				files := buildImage(trace, img, killOnly)
+				files := eng.BuildImage(trace, img, killOnly)
 				c.Progress(idx, c05Replay{Program: p, Image: img})
 				cls, disc, det := checkImage(p.Cfg, world, uni, marks, trace, img, files, idir, sr)
 				sr.Evaluations++
@@ -580,7 +420,7 @@ func init() {
 			return nil, "trace shorter than in the recorded run (non-deterministic write order)"
 		}
 		sr := run.NewShardResult()
-		files := buildImage(trace, b.Image, b.Program.Cfg.NoSync)
+		files := eng.BuildImage(trace, b.Image, b.Program.Cfg.NoSync)
 		if kd := os.Getenv("VERIF_KEEP_IMAGE"); kd != "" {
 			os.MkdirAll(kd, 0o755)
 			for n, c := range files {
